@@ -652,8 +652,103 @@ type Acc struct {
         imports_for(src, text, ("os", "encoding/json")) + "\n" + text
 
 
+F14_TAIL = '''
+var byName = func() map[string]int {
+	m := map[string]int{}
+	for i := range helpers {
+		m[helpers[i].name] = i
+	}
+	return m
+}()
+
+const libPrefix = "github.com/free5gc/nas/"
+
+var digits = regexp.MustCompile(`[0-9]+`)
+
+// Runner runs cases for one goroutine (cmd/helpers14: one Call event per case, no watchdog goroutine: the concurrent
+// driver's monitor watches for calls that do not return).
+type Runner struct{ W Sink }
+
+// NewRunner makes the runner of one goroutine.
+func NewRunner(w Sink) *Runner { return &Runner{W: w} }
+
+// Load reads a case file (the format cmd/helpers14 replays).
+func Load(path string) []Case {
+	b, err := os.ReadFile(path)
+	if err != nil {
+		ev.Fatal("%v", err)
+	}
+	var cs []Case
+	if err := json.Unmarshal(b, &cs); err != nil {
+		ev.Fatal("%v", err)
+	}
+	for i := range cs {
+		if _, ok := byName[cs[i].H]; !ok {
+			ev.Fatal("unknown helper %q", cs[i].H)
+		}
+	}
+	return cs
+}
+
+// Finish: nothing is held back in this family.
+func (r *Runner) Finish() {}
+
+// Run executes one case: the loop body of cmd/helpers14 replay (call under recover, one Call event).
+func (r *Runner) Run(c *Case) {
+	hi := byName[c.H]
+	h := &helpers[hi]
+	in := inputBytes(h, c.In)
+	if len(in) > h.maxLen { // longer than the information element can carry
+		return
+	}
+	code, fn, kind := cVal, "", ""
+	func() {
+		defer func() {
+			if rec := recover(); rec != nil {
+				code = cPanic
+				pcs := make([]uintptr, 64)
+				n := runtime.Callers(3, pcs)
+				fr := runtime.CallersFrames(pcs[:n])
+				for {
+					f, more := fr.Next()
+					if strings.HasPrefix(f.Function, libPrefix) {
+						fn = strings.TrimPrefix(f.Function, libPrefix)
+						break
+					}
+					if strings.HasPrefix(f.Function, "main.") || strings.HasPrefix(f.Function, "verifharness") || !more {
+						break
+					}
+				}
+				if fn == "" {
+					ev.Fatal("panic outside the library: %v", rec)
+				}
+				kind = digits.ReplaceAllString(fmt.Sprint(rec), "N")
+			}
+		}()
+		code = h.f(in[:len(in):len(in)])
+	}()
+	e := blank("Call", hi, in)
+	e.Cls = clsName[code]
+	e.Fn, e.Kind = fn, kind
+	r.W.Emit(e)
+}
+'''
+
+
+def gen_help():
+    src = open(os.path.join(CMD, "helpers14", "main.go")).read()
+    table = cut(src, "const (\n\tcVal = iota", "// ---- observation of panics", "f14")
+    evs = cut(src, "type Sig struct {", "var w *ev.Writer", "f14")
+    case = cut(src, "type Case struct {", "var textAlphabet", "f14")
+    if "skipHang" in table or "w.Emit" in table: raise SyncError("f14: the helper table of cmd/helpers14 touches driver state: adapt tools/conc_sync.py")
+    text = table + evs + case + SINK + F14_TAIL
+    return HEAD % dict(drv="helpers14", pkg="f14", what="the helper table and the Call event of cmd/helpers14 (C14: helpers on UE-supplied contents)", trace="Trace_C14") + \
+        imports_for(src, text, ("os", "encoding/json", "fmt", "regexp", "runtime", "strings")) + "\n" + text
+
+
 def generate():
     out = {}
+    out["f14"] = gen_help()
     if os.path.exists(os.path.join(CMD, "ietypes", "main.go")):
         out["f09"] = gen_ie()
     out["f17"] = gen_state_family("f17", "conv17", "Trace_C17", "the converters of cmd/conv17 (C17: timers, session AMBR, time zone / DST / universal time, network names)",
